@@ -55,6 +55,10 @@ struct E4 : Engine {
 			else if(mode != "conc"){ o["op"] = "tick"; o["s"] = 1 + (int)r.below(4); }
 			else { o["op"] = "fetch"; o["k"] = koff + (int)r.below(nkeys); o["how"] = 0; }
 			ops.push(o); }
+		// hot key (concurrent mode): the two threads of one node with an L1 keep fetching the one key that another node keeps storing - revalidation, refresh of the shared L1
+		// copy and the other thread's fetch overlap in every order
+		if(mode == "conc" && r.below(3) == 0){ ops = J::arr(); cl.a[0]["l1"] = (int)r.below(3); cl.a[0]["threads"] = 2; int nst = 2 + r.below(4), nf = 3 + r.below(5); int total = nst + 2*nf; std::vector<int> who; for(int i=0;i<nst;i++) who.push_back(2); for(int i=0;i<nf;i++){ who.push_back(0); who.push_back(1); } for(int i=total-1;i>0;i--) std::swap(who[i],who[r.below(i+1)]);
+			for(int i=0;i<total;i++){ J o = J::obj(); if(who[i] == 2){ o["c"] = 1; o["t"] = 0; o["op"] = "store"; o["k"] = koff; o["trig"] = J::arr(); o["dl"] = 50; o["len"] = (int)r.below(40); o["fill"] = 1; } else { o["c"] = 0; o["t"] = who[i]; o["op"] = "fetch"; o["k"] = koff; o["how"] = (int)r.below(3); } ops.push(o); } p["clients"] = cl; p["hot_key"] = 1; }
 		p["ops"] = ops;
 		// masked resets (sequential mode): connection resets only, at most one per operation - the client's reconnect-and-retry has to mask each of them, so the
 		// oracle stays exactly as strict as without faults (every operation succeeds, every fetch equals the single-copy model)
